@@ -44,6 +44,12 @@ pub fn run(rep: &mut Report, thorough: bool) {
             let spo = (rng.below(pages * PAGE - 16) & !7) as i64;
             b.sentinel(&mut rng, mode, &StackShape { pages, sp_offset: spo, low: (spo / 8) % 3 == 0, ..Default::default() }, None, None);
         }
+        // a readable pattern page directly followed by a pattern page that has since been made
+        // inaccessible (what a collector or a guard-page allocator does to part of a live region):
+        // a request across the seam can only be read in part
+        let half = b.anon(1, 6, 6, Fill::Pattern);
+        b.anon(1, 0, 0, Fill::Pattern);
+        let straddle = (b.spec.regions[half].addr, 2 * PAGE);
         let t = match Target::spawn(b.spec.clone(), &b.opts) {
             Ok(t) => t,
             Err(e) => {
@@ -94,6 +100,10 @@ pub fn run(rep: &mut Report, thorough: bool) {
                     o.app_memory.push((a, l));
                 }
             }
+            let partly_readable = di % 3 == 1;
+            if partly_readable {
+                o.app_memory.push(straddle);
+            }
             // crash context / instruction pointer position
             // every instruction-pointer position once per target, then random ones
             let ip_choice = if di < 12 { di as u64 } else { rng.below(12) };
@@ -138,7 +148,7 @@ pub fn run(rep: &mut Report, thorough: bool) {
                     for d in &mem {
                         // the main thread runs: its stack is not quiescent
                         let running_stack = threads.iter().any(|th| th.tid as i32 == t.pid && th.stack_start == d.start && th.stack_size == d.size);
-                        if running_stack || d.size == 0 {
+                        if running_stack || d.size == 0 || (partly_readable && d.start == straddle.0) {
                             continue;
                         }
                         // with sanitization the stack descriptors hold the sanitized copy (C12's business)
@@ -167,6 +177,9 @@ pub fn run(rep: &mut Report, thorough: bool) {
                     // 2. requested regions, as a multiset
                     let mut pool: Vec<(u64, u32)> = mem.iter().map(|d| (d.start, d.size)).collect();
                     for (a, l) in &o.app_memory {
+                        if partly_readable && (*a, *l) == straddle {
+                            continue;
+                        }
                         if let Some(p) = pool.iter().position(|(s, z)| s == a && *z as u64 == *l) {
                             pool.swap_remove(p);
                         } else {
@@ -174,6 +187,22 @@ pub fn run(rep: &mut Report, thorough: bool) {
                         }
                     }
                     rep.count("app_regions_checked", o.app_memory.len() as u64);
+                    // 2b. the partly readable request: whatever length the writer records for it (the
+                    // readable page at least), every recorded byte is the target's byte at that address -
+                    // the inaccessible page still holds the pattern it was filled with
+                    if partly_readable {
+                        rep.count("partly_readable_requests_checked", 1);
+                        let got: Vec<&image::MemDesc> = mem.iter().filter(|d| d.start == straddle.0).collect();
+                        match got.as_slice() {
+                            [d] if (d.size as u64) >= PAGE && (d.size as u64) <= straddle.1 => {
+                                let bytes = &img[d.rva as usize..(d.rva + d.size) as usize];
+                                if let Some(i) = bytes.iter().enumerate().position(|(i, x)| *x != pat(d.start + i as u64)) {
+                                    rep.violation("C07 region over a partly readable request holds bytes that are not the target's memory", json!({"case": case, "recorded": format!("{:#x}+{}", d.start, d.size), "first_wrong_offset": i, "got": bytes[i], "target_has": pat(d.start + i as u64)}));
+                                }
+                            }
+                            other => rep.violation("C07 partly readable application region missing or mis-sized", json!({"case": case, "requested": format!("{:#x}+{}", straddle.0, straddle.1), "recorded": other.iter().map(|d| format!("{:#x}+{}", d.start, d.size)).collect::<Vec<_>>()})),
+                        }
+                    }
                     // 3. every non-empty stack
                     for th in &threads {
                         if th.stack_size > 0 {
@@ -247,4 +276,5 @@ pub fn run(rep: &mut Report, thorough: bool) {
     rep.require("app_regions_checked", 10);
     rep.require("ip_windows_checked", 5);
     rep.require("dumps_with_size_limit_and_many_threads", 4);
+    rep.require("partly_readable_requests_checked", 4);
 }
